@@ -9,7 +9,7 @@ macro_rules! codec_harness {
         #[cfg(kani)]
         #[kani::proof]
         #[kani::unwind(18)]
-        fn $name() {
+        pub fn $name() {
             let b: $T = kani::any();
             let x = <$Fx>::from_bits(b);
             let enc = x.encode();
@@ -55,7 +55,7 @@ codec_harness!(codec_u128, FixedU128<U127>, u128, 16);
 #[cfg(kani)]
 #[kani::proof]
 #[kani::unwind(18)]
-fn codec_frac_independent() {
+pub fn codec_frac_independent() {
     let b: i32 = kani::any();
     assert!(FixedI32::<U0>::from_bits(b).encode() == FixedI32::<U32>::from_bits(b).encode());
     assert!(FixedI32::<U9>::from_bits(b).encode() == FixedI32::<U23>::from_bits(b).encode());
